@@ -56,7 +56,7 @@ def cases(tier, seed):
                 continue
             if grid == 'g40' and (st != '3h' or ords != (2, 1, 2) or rule != 'trapz2d'):
                 continue
-            if imp and (st not in ('h',) or ords != (2, 1, 2)):
+            if imp and (st not in ('h', 'zero') or ords != (2, 1, 2)):
                 continue
             if ords == (2, 2, 2) and (st != 'h' or rule != 'trapz2d'):
                 continue
@@ -64,7 +64,8 @@ def cases(tier, seed):
                 continue
         out.append(dict(model=model, alpha=alpha, ords=list(ords), state=st, rule=rule, grid=grid, cores=cores, imp=imp, seed=seed))
     # prescribed end rotation / shortening: the tangent must follow the load level on a re-used object
-    for model, alpha, presc in itertools.product([m for m in nl_models() if m not in KERNEL_FINDINGS], [0., 20.], ['twist', 'twist+shortening']):
+    for model, alpha, presc in itertools.product([m for m in nl_models() if m not in KERNEL_FINDINGS], [0., 20.],
+                                                 ['twist', 'twist+shortening', 'shortening']):
         out.append(dict(model=model, alpha=alpha, ords=[2, 1, 2], state='h', rule='trapz2d', grid='g24', cores=1, imp=0, presc=presc, seed=seed))
     return out
 
@@ -75,7 +76,10 @@ def build(case, cores=None):
     cfg = dict(model=case['model'], alphadeg=case['alpha'], m1=m1, m2=m2, n2=n2, s=40, nx=n, nt=n, ni_method=case['rule'],
                ni_num_cores=cores or case['cores'], stack=[30., -60., 17.3] if 'iso' not in case['model'] else [])
     if case.get('presc'):
-        cfg.update(pdT=True, thetaTdeg=0.15)
+        if 'twist' in case['presc']:
+            cfg.update(pdT=True, thetaTdeg=0.15)
+        else:
+            cfg.update(pdT=False)                      # twist amplitude free, shortening prescribed: non-contiguous prescribed set
         if 'shortening' in case['presc']:
             cfg.update(pdC=True, uTM=1.0e-4)
     cc = rs.shell_of(cfg)
@@ -120,16 +124,17 @@ def check_case(case):
             lin = k0uu.dot(c)
             if np.abs(f0 - lin).max() > 1e-6 * (np.abs(k0uu).dot(np.abs(c)).max() + 1e-300):
                 fails.append(fail('internal force for vanishing amplitudes is not the linear stiffness times the amplitudes', sig=None, case=case))
-        if case['state'] in ('h', '3h'):
+        if case['state'] in ('h', '3h') or (case['imp'] and case['state'] in ('zero', 'tiny')):
+            # with an initial imperfection the tangent of the unloaded shell already contains the imperfection terms
             nl = np.abs(kT - k0uu).max()
-            step = 1e-6 * np.abs(c).max()
+            step = 1e-6 * max(np.abs(c).max(), h)
             for k in range(n):
                 e = np.zeros(n); e[k] = step
                 col = (np.asarray(cc.calc_fint(c + e, inc=inc, silent=True), dtype=float) -
                        np.asarray(cc.calc_fint(c - e, inc=inc, silent=True), dtype=float)) / (2 * step)
                 execs += 2
                 err = np.abs(col - kT[:, k]).max()
-                if err > 1e-4 * nl + 1e-9 * sc:
+                if err > 1e-4 * nl + 1e-9 * sc + (1e-6 * sc if case['state'] in ('zero', 'tiny') else 0.0):
                     sig = KERNEL_FINDINGS.get(case['model'])
                     if sig and not layer_matches_kernels(cc, c, kT, f0):
                         sig = None
